@@ -563,6 +563,119 @@ fn out_json(o: &Obs, base: i64, tick: i64, rescale: f32) -> Value {
         Obs::Panic(_) => json!({"c": "panic", "e": 0, "t": 0, "keys": []}),
     }
 }
+
+// ------------------------------------------------------------------------------------------------
+// f64 reference evaluator for the recorded traces (numeric accuracy on arbitrary floats and odd nanosecond intervals):
+// the textbook formula of each kind over the present samples since the last reset, with exact i64 intervals, and the
+// magnitude that a rounding tolerance "proportional to f32 epsilon" is proportional to.  Returns (value, magnitude) per
+// output component, or None when the kind has no reference here / the output must be absent.
+// ------------------------------------------------------------------------------------------------
+fn reference(kind: &str, par: &Value, hist: &[(i64, f64)], w_ns: i64) -> Option<Vec<(f64, f64)>> {
+    let n = hist.len();
+    if n == 0 {
+        return None;
+    }
+    let dt = |i: usize| (hist[i].0 - hist[i - 1].0) as f64 / 1e9;
+    let f = |name: &str| rat(&par[name]) as f32 as f64;
+    match kind {
+        "Integral" => {
+            if n < 2 { return None; }
+            let (mut v, mut m) = (0.0, 0.0);
+            for i in 1..n {
+                v += (hist[i - 1].1 + hist[i].1) / 2.0 * dt(i);
+                m += (hist[i - 1].1.abs() + hist[i].1.abs()) / 2.0 * dt(i);
+            }
+            Some(vec![(v, m)])
+        }
+        "Derivative" => {
+            if n < 2 { return None; }
+            Some(vec![((hist[n - 1].1 - hist[n - 2].1) / dt(n - 1), (hist[n - 1].1.abs() + hist[n - 2].1.abs()) / dt(n - 1))])
+        }
+        "PID" => {
+            let (sp, kp, ki, kd) = (f("sp"), f("kp"), f("ki"), f("kd"));
+            let e = |i: usize| sp - hist[i].1;
+            let (mut int, mut mint) = (0.0, 0.0);
+            for i in 1..n {
+                int += (e(i - 1) + e(i)) / 2.0 * dt(i);
+                mint += (e(i - 1).abs() + e(i).abs()) / 2.0 * dt(i);
+            }
+            let (der, mder) = if n >= 2 { ((e(n - 1) - e(n - 2)) / dt(n - 1), (e(n - 1).abs() + e(n - 2).abs()) / dt(n - 1)) } else { (0.0, 0.0) };
+            Some(vec![(kp * e(n - 1) + ki * int + kd * der, kp.abs() * (sp.abs() + hist[n - 1].1.abs()) + ki.abs() * mint + kd.abs() * mder)])
+        }
+        "EWMA" | "EWMAQ" => {
+            // value_0 = sample_0; value_i = value_(i-1) (1 - L) + sample_i L with L = 1 - (1 - s)^dt; (1 - s) is the f32 the stream holds
+            let x = (1.0f32 - rat(&par["s"]) as f32) as f64;
+            let mut v = hist[0].1;
+            let mut m = hist[0].1.abs();
+            for i in 1..n {
+                let l = 1.0 - x.powf(dt(i));
+                v = v * (1.0 - l) + hist[i].1 * l;
+                m = m.max(hist[i].1.abs());
+            }
+            Some(vec![(v, m)])
+        }
+        "MA" | "MAQ" => {
+            // time-weighted mean over the window ending at the newest sample; a sample holds from its predecessor's time to its own
+            let now = hist[n - 1].0;
+            let start = now - w_ns;
+            let kept: Vec<&(i64, f64)> = hist.iter().filter(|h| h.0 > start).collect();
+            if kept.is_empty() { return None; }
+            let w = w_ns as f64;
+            let (mut v, mut m) = (0.0, 0.0);
+            let mut prev = start;
+            for h in kept {
+                let wt = (h.0 - prev) as f64;
+                v += h.1 * wt / w;
+                m += h.1.abs() * wt / w;
+                prev = h.0;
+            }
+            Some(vec![(v, m)])
+        }
+        "AccToState" => {
+            if n < 3 { return None; }
+            let (mut vel, mut mvel, mut pos, mut mpos) = (0.0f64, 0.0f64, 0.0f64, 0.0f64);
+            for i in 1..n {
+                let add = (hist[i - 1].1 + hist[i].1) / 2.0 * dt(i);
+                let madd = (hist[i - 1].1.abs() + hist[i].1.abs()) / 2.0 * dt(i);
+                let (nv, nmv) = (vel + add, mvel + madd);
+                if i >= 2 {
+                    pos += (vel + nv) / 2.0 * dt(i);
+                    mpos += (mvel + nmv) / 2.0 * dt(i);
+                }
+                vel = nv;
+                mvel = nmv;
+            }
+            Some(vec![(pos, mpos), (vel, mvel), (hist[n - 1].1, 0.0)])
+        }
+        "VelToState" => {
+            if n < 2 { return None; }
+            let (mut pos, mut mpos) = (0.0, 0.0);
+            for i in 1..n {
+                pos += (hist[i - 1].1 + hist[i].1) / 2.0 * dt(i);
+                mpos += (hist[i - 1].1.abs() + hist[i].1.abs()) / 2.0 * dt(i);
+            }
+            Some(vec![(pos, mpos), (hist[n - 1].1, 0.0), ((hist[n - 1].1 - hist[n - 2].1) / dt(n - 1), (hist[n - 1].1.abs() + hist[n - 2].1.abs()) / dt(n - 1))])
+        }
+        "PosToState" => {
+            if n < 3 { return None; }
+            let vel = |i: usize| (hist[i].1 - hist[i - 1].1) / dt(i);
+            let mvel = |i: usize| (hist[i].1.abs() + hist[i - 1].1.abs()) / dt(i);
+            Some(vec![(hist[n - 1].1, 0.0), (vel(n - 1), mvel(n - 1)), ((vel(n - 1) - vel(n - 2)) / dt(n - 1), (mvel(n - 1) + mvel(n - 2)) / dt(n - 1))])
+        }
+        _ => None,
+    }
+}
+/// error and bound as integers for TLC, scaled so that the bound is about 1e6
+fn scaled_err(err: f64, bound: f64) -> (i64, i64) {
+    if !err.is_finite() || !bound.is_finite() {
+        return (0, 1); // overflowed references decide nothing
+    }
+    if bound <= 0.0 {
+        return (if err == 0.0 { 0 } else { 1 << 30 }, 1);
+    }
+    let k = 1.0e6 / bound;
+    ((err.abs() * k).min(1.0e9) as i64, 1_000_000)
+}
 fn record(path: &str, seed: u64, n: usize, kinds: &[String]) {
     use std::io::Write;
     let mut rng = Rng::new(seed);
@@ -603,6 +716,8 @@ fn record(path: &str, seed: u64, n: usize, kinds: &[String]) {
         let mut composite = if kind == "PID" { Some(make_composite(&par, &conc)) } else { None };
         let mut cur_cmd = (cmd0.0, cmd0.1);
         let mut now_ticks: i64 = 0;
+        let mut hist: Vec<(i64, f64)> = vec![];   // present samples since the last reset of this kind (for the f64 reference)
+        let resets_on_none = matches!(kind, "PID" | "Integral" | "Derivative");
         let len = 8 + rng.below(57) as usize;
         for _ in 0..len {
             // draw an event
@@ -680,8 +795,28 @@ fn record(path: &str, seed: u64, n: usize, kinds: &[String]) {
                 json!({"c": inner["c"], "e": inner["e"], "t": inner["t"]})
             };
             let inkey = if cat == "some" && inner["v"].is_number() { f32_key(inner["v"].as_f64().unwrap() as f32) } else { 0 };
+            // the f64 reference over the samples since the last reset: error and bound per output component
+            match cat.as_str() {
+                "some" if inner["v"].is_number() => hist.push((t_real.0, inner["v"].as_f64().unwrap() as f32 as f64)),
+                "none" if resets_on_none => hist.clear(),
+                "err" => hist.clear(),
+                _ => {}
+            }
+            let mut num: Vec<Value> = vec![];
+            if cat == "some" && r.as_ref().map(|x| x.is_ok()).unwrap_or(false) {
+                if let (Some(refv), Obs::Present { vals, .. }) = (reference(kind, &par, &hist, w_ticks * tick), &o) {
+                    let eps = f32::EPSILON as f64;
+                    for (j, (rv, mag)) in refv.iter().enumerate() {
+                        if j < vals.len() {
+                            let bound = (hist.len() as f64 / 3.0 + 3.0) * eps * (mag + rv.abs()) + f32::MIN_POSITIVE as f64;
+                            let (e, b) = scaled_err(vals[j] as f64 - rv, bound);
+                            num.push(json!({"err": e, "bound": b}));
+                        }
+                    }
+                }
+            }
             writeln!(f, "{}", json!({
-                "k": "ev", "ev": evj, "inkey": inkey, "ret": ret_json(&r), "out": out_json(&o, base, tick, 1.0), "get2": out_json(&o2, base, tick, 1.0),
+                "k": "ev", "ev": evj, "inkey": inkey, "num": num, "ret": ret_json(&r), "out": out_json(&o, base, tick, 1.0), "get2": out_json(&o2, base, tick, 1.0),
                 "since_none": cj(&cands[0]), "since_err": cj(&cands[1]), "since_set": cj(&cands[2]),
                 "skip": out_json(&get(&skip), base, tick, 1.0),
                 "shift": out_json(&get(&shifted), base + shift, tick, 1.0),
